@@ -789,13 +789,34 @@ static const H::Collection& headers_of(Http::RequestParser& p) { return p.reques
 static const H::Collection& headers_of(Http::ResponseParser& p) { return p.response.headers(); }
 
 template <typename P>
+static void lookup_in_delivered(const std::string& msg, size_t cut, const std::vector<std::string>& ask, const Sent& first, const LkHeader* reg, const char* sigGroup, vr::Ctx& ctx);
+template <typename P>
 static void lookup_in(const std::string& msg, const std::vector<std::string>& ask, const Sent& first, const LkHeader* reg, const char* sigGroup, vr::Ctx& ctx)
 {
-    ctx.note(std::string(sigGroup) + " message=" + vr::show(msg));
+    lookup_in_delivered<P>(msg, 0, ask, first, reg, sigGroup, ctx);
+    // the same message in two reads, the first ending in the middle of the looked-up header's value (what is looked
+    // up must be the value that finally arrived, not a fragment seen on the way)
+    size_t at = first.value.size() >= 2 ? msg.find(first.value) : std::string::npos;
+    if (at != std::string::npos)
+        lookup_in_delivered<P>(msg, at + first.value.size() / 2, ask, first, reg, sigGroup, ctx);
+}
+
+template <typename P>
+static void lookup_in_delivered(const std::string& msg, size_t cut, const std::vector<std::string>& ask, const Sent& first, const LkHeader* reg, const char* sigGroup, vr::Ctx& ctx)
+{
+    ctx.note(std::string(sigGroup) + (cut ? " [two reads, cut at " + std::to_string(cut) + "]" : "") + " message=" + vr::show(msg));
     P p(8192);
-    pc::Outcome o = pc::step(p, msg.data(), msg.size());
+    pc::Outcome o;
+    if (cut)
+    {
+        o = pc::step(p, msg.data(), cut);
+        if (o.kind == pc::AGAIN)
+            o = pc::step(p, msg.data() + cut, msg.size() - cut);
+    }
+    else
+        o = pc::step(p, msg.data(), msg.size());
     ctx.count("transitions", 1 + 3 * ask.size());
-    std::string dj = "{\"message\":" + vr::jstr(vr::show(msg));
+    std::string dj = "{\"message\":" + vr::jstr(vr::show(msg)) + (cut ? ",\"first_read_ends_at\":" + std::to_string(cut) : "");
     if (o.kind != pc::DONE)
     {
         ctx.violation(std::string("c16:") + sigGroup + ":message-not-parsed", dj + ",\"outcome\":" + vr::jstr(o.str() + " " + o.what) + "}");
